@@ -13,6 +13,7 @@ import ChumskyModel.Model.Spec
 import ChumskyModel.Model.Text
 import ChumskyModel.Model.Pratt
 import ChumskyModel.Model.Drops
+import ChumskyModel.Model.Input
 open Chumsky
 
 abbrev P := StateT (List String) (Except String)
@@ -329,6 +330,11 @@ def caseP : P Case := do
     | "mapped0" => pure (InKind.mapped, 0) | "mapped1" => pure (InKind.mapped, 1)
     | "mapped3" => pure (InKind.mapped, 3)
     | "stream" => pure (InKind.slice, 0)
+    -- C10: representations whose spans are plain token indices (`map_span` is re-based by the orchestrator)
+    | "array" => pure (InKind.slice, 0) | "bstream" => pure (InKind.slice, 0)
+    | "wctx" => pure (InKind.slice, 0) | "mspan" => pure (InKind.slice, 0)
+    -- `Input::map` over an `IoInput`: the span of a token is derived from the byte (`b..b+1`), gap code 99
+    | "iomap" => pure (InKind.mapped, 99)
     | "mstream0" => pure (InKind.mapped, 0) | "mstream1" => pure (InKind.mapped, 1)
     | "mstream3" => pure (InKind.mapped, 3)
     | t => throw s!"bad input kind {t}"
@@ -357,6 +363,10 @@ def caseHasMemo (line : List String) : Bool := line.any (·.startsWith "memo")
 
 def mkEnv (c : Case) (toks : List Nat) : Env :=
   let n := toks.length
+  if c.gap == 99 then
+    { toks := toks, kind := c.kind, ek := c.ek, defs := c.defs, memoOn := c.hasMemo,
+      tspans := toks.map (fun t => (t, t + 1)), eoi := (200, 200) }
+  else
   { toks := toks, kind := c.kind, ek := c.ek, defs := c.defs, memoOn := c.hasMemo,
     tspans := mappedSpans n c.gap,
     eoi := (n * (c.gap + 2) + c.gap, n * (c.gap + 2) + c.gap) }
@@ -476,6 +486,45 @@ def runDrop (fam : String) (n : Nat) (boxed : Bool) (mode : String) (hi : Option
     let created := (Drops.created next n 0).length
     s!"created={created} dropped={r.1.drops.length} returned={r.1.out.length} ok={if r.2 then 1 else 0}"
 
+/-! ### input implementations (C10):  IN <id> <kind> S <n> k1..kn I <inputspec> -/
+
+def inputCase : P (String × String × List Nat × List (List Nat)) := do
+  let id ← tok
+  let kind ← tok
+  let s ← tok
+  if s != "S" then throw "expected S"
+  let sched ← natList
+  let i ← tok
+  if i != "I" then throw "expected I"
+  let inputs ← inputsP
+  pure (id, kind, sched, inputs)
+
+def renderObs (obs : List (Nat × Option Nat)) : String :=
+  String.join (obs.map fun (l, t) => s!" {l}:{match t with | some t => toString t | none => "-"}")
+
+def runInput (kind : String) (sched toks : List Nat) : String :=
+  open Chumsky.Input in
+  let gapSpan (i : Nat) : Nat × Nat := (i * 3 + 1, i * 3 + 3)          -- the harness's `mapped_tokens(_, gap = 1)`
+  match kind with
+  | "slice" => renderObs (replay (listImpl toks) sched () [0])
+  | "str" =>
+    -- the implementation's locations are byte offsets; the harness reports character indices
+    let lay := layout toks 0
+    let idxOf (off : Nat) : Nat := (lay.filter (fun p => p.1 < off)).length
+    renderObs ((replay (strImpl toks) sched () [0]).map fun (l, t) => (idxOf l, t))
+  | "stream" =>
+    let obs := replay (streamImpl 512) sched (streamBegin toks) [0]
+    let fin := replayFinal (streamImpl 512) sched (streamBegin toks) [0]
+    s!"{renderObs obs} ; pulls={fin.pulls.length} inorder={if fin.pulls == toks.take fin.pulls.length then 1 else 0}"
+  | "bstream" => renderObs (replay (streamImpl 512) sched (streamBegin toks) [0])
+  | "io" => renderObs (replay ioImpl sched (ioBegin toks) [0])
+  | "iomap" => renderObs (replay (mappedImpl ioImpl (fun t => (t, t + 1))) sched (ioBegin toks) [(0, none)])
+  | "mapped" => renderObs (replay (mappedImpl (listImpl toks) (fun t => (t, t + 1))) sched () [(0, none)])
+  | "iter" =>
+    let src := (List.range toks.length).zip toks |>.map fun (i, t) => (t, gapSpan i)
+    renderObs (replay iterImpl sched () [{ rest := src, idx := 0, lastEnd := none }])
+  | other => s!" ERR unknown-kind-{other}"
+
 partial def loop (inp out : IO.FS.Stream) : IO Unit := do
   let line ← inp.getLine
   if line.isEmpty then return ()
@@ -489,6 +538,15 @@ partial def loop (inp out : IO.FS.Stream) : IO Unit := do
         let env := mkEnv c ts
         out.putStrLn s!"{c.id}.{k} M {renderTop (parseTopPratt c.fuel env c.mode atom ops)}"
         out.putStrLn s!"{c.id}.{k} S {renderSpec (pegTopPratt c.fuel env atom ops)}"
+        k := k + 1
+    | .error e => out.putStrLn s!"ERR {e} :: {line.trimAscii.toString}"
+    loop inp out
+  else if toks.head? == some "IN" then
+    match (inputCase.run toks.tail) with
+    | .ok ((id, kind, sched, inputs), _) =>
+      let mut k := 0
+      for ts in inputs do
+        out.putStrLn s!"{id}.{k} M{runInput kind sched ts}"
         k := k + 1
     | .error e => out.putStrLn s!"ERR {e} :: {line.trimAscii.toString}"
     loop inp out
